@@ -108,13 +108,14 @@ def parse_tsan(stderr_text, repo):
         tops = []
         cur = None
         for ln in lines:
-            if re.match(r'^\s+(Read|Write|Previous|Atomic|Location|Thread|Mutex|As if)', ln) or \
-                    re.match(r'^\s+\S.*(by thread|by main thread)', ln):
+            if re.match(r'^\s+(Previous )?(atomic )?(read|write) of size', ln, re.I):
+                if len(tops) >= 2:
+                    break
                 cur = []
                 tops.append(cur)
-                if re.match(r'^\s+(Location|Thread|Mutex)', ln):
-                    cur = None
-                    tops.pop()
+                continue
+            if cur is not None and re.match(r'^\s+(Location|Thread|Mutex|As if|SUMMARY)', ln):
+                cur = None
                 continue
             fm = FRAME_RE.match(ln) or re.match(r'^\s*#(\d+) (\S+) (\S+)', ln)
             if fm and cur is not None:
@@ -130,7 +131,9 @@ def parse_tsan(stderr_text, repo):
             if f is None and st:
                 f = st[0][0]
             funcs.append(f or '?')
-        by_design = any(f.startswith(TSAN_BY_DESIGN) for f in funcs) and kind == 'data-race'
+        by_design = kind == 'data-race' and (any(f.startswith(TSAN_BY_DESIGN) for f in funcs) or
+                                              # one side inside uninstrumented libev (fd bookkeeping vs close)
+                                              ('<null>' in funcs and any(f in ('ueventfd_clean',) for f in funcs)))
         key = 'tsan:%s:%s' % (kind, '|'.join(sorted(set(funcs))))
         out.append((key, ' / '.join(funcs), by_design))
     return out
